@@ -19,7 +19,7 @@ harness!(mask_one_bit_per_word, 9, {
 });
 
 // @harness props=C20 tier=quick timeout=300 desc="hash_to_block_index is < number of blocks for every block count 1..=2^32 and every hash"
-harness!(block_index_in_range, 6, {
+harness!(block_index_in_range, 9, {
     let len: usize = vnd::any();
     let h: u64 = vnd::any();
     vnd::assume(len >= 1 && len as u64 <= 1u64 << 32);
@@ -51,9 +51,46 @@ harness!(insert_then_check, 9, {
     core::mem::forget(f);
 });
 
-// @harness props=C20,C32 tier=quick timeout=900 desc="Sbbf::new(to_bytes(f)) has the same blocks as f, hence answers every check_hash alike (one block); byte strings whose length is not a multiple of 32 are rejected"
-harness!(bytes_roundtrip, 34, {
-    let n: usize = 1;
+// @harness props=C20,C32 tier=quick timeout=900 cfg=verif_ccap64 desc="to_bytes writes every block, in order, little-endian: 32 bytes per block and word w of block b at offset 32b+4w (1..=2 blocks, trailing all-zero blocks included)"
+harness!(to_bytes_layout, 67, {
+    let n: usize = vnd::any();
+    vnd::assume(n >= 1 && n <= 2);
+    let f = Sbbf::verif_any(n);
+    let bytes = f.to_bytes();
+    vnd::cover!(n == 2 && f.verif_word(1, 0) == 0 && f.verif_word(0, 3) != 0, "a second block that starts with a zero word");
+    assert!(bytes.len() == 32 * n);
+    let (b, w): (usize, usize) = (vnd::any(), vnd::any());
+    vnd::assume(b < n && w < 8);
+    let o = 32 * b + 4 * w;
+    let word = f.verif_word(b, w).to_le_bytes();
+    assert!(bytes[o] == word[0] && bytes[o + 1] == word[1] && bytes[o + 2] == word[2] && bytes[o + 3] == word[3]);
+    core::mem::forget(bytes);
+    core::mem::forget(f);
+});
+
+// @harness props=C20,C32 tier=quick timeout=900 desc="Sbbf::new reads that layout back: one block per 32 bytes, word w from bytes 4w..4w+4 little-endian (one block); lengths that are not a multiple of 32 are rejected"
+harness!(new_reads_layout, 34, {
+    let bytes: [u8; 32] = vnd::any();
+    match Sbbf::new(&bytes) {
+        Ok(g) => {
+            let w: usize = vnd::any();
+            vnd::assume(w < 8);
+            vnd::cover!(g.verif_word(0, w) == 0x8000_0001, "a word with its top and bottom bit set");
+            assert!(g.num_blocks() == 1);
+            assert!(g.verif_word(0, w) == u32::from_le_bytes([bytes[4 * w], bytes[4 * w + 1], bytes[4 * w + 2], bytes[4 * w + 3]]));
+            core::mem::forget(g);
+        }
+        Err(_) => assert!(false),
+    }
+    let cut: usize = vnd::any();
+    vnd::assume(cut < 32 && cut != 0);
+    assert!(Sbbf::new(&bytes[..cut]).is_err());
+});
+
+// @harness props=C20,C32 tier=thorough timeout=3000 cfg=verif_ccap64 desc="Sbbf::new(to_bytes(f)) has the same blocks as f (1..=2 blocks)"
+harness!(bytes_roundtrip, 67, {
+    let n: usize = vnd::any();
+    vnd::assume(n >= 1 && n <= 2);
     let f = Sbbf::verif_any(n);
     let h: u64 = vnd::any();
     let bytes = f.to_bytes();
